@@ -1,7 +1,7 @@
 SPECIFICATION Spec
 CONSTANTS
   CID = {"c1", "c2"}
-  EXCH = {"x1"}
+  EXCH = {"x1", "x2"}
   MaxSends = 2
   MaxKills = 1
 INVARIANTS TypeOK AtMostOnce InFlightBacked Routed ConnMatchesLinks
